@@ -169,3 +169,44 @@ func VerifC15MulAsm() {
 	vNote("fm", f)
 	vReach("end")
 }
+
+// c15sym: a field symbol (symbolic run) / value from the replay file; kind parameters may force the literal zero.
+func c15sym(name string) Element {
+	var e Element
+	e.SetString(vBigString(name))
+	return e
+}
+
+// VerifC15BatchInvert: Montgomery batch inversion for every zero pattern of n inputs.
+func VerifC15BatchInvert() {
+	n := vParamInt("n")
+	mask := vParamInt("zeromask")
+	a := make([]Element, n)
+	for i := range a {
+		if mask>>uint(i)&1 == 0 {
+			a[i] = c15sym("a")
+			if !vSymbolic() && a[i].IsZero() {
+				a[i].SetUint64(uint64(i) + 2)
+			}
+		}
+	}
+	vProtect(a, "input of BatchInvert")
+	res := BatchInvert(a)
+	vNote("len", len(res))
+	vNote("res", res)
+	if !vSymbolic() {
+		ok := len(res) == n
+		for i := 0; ok && i < n; i++ {
+			if a[i].IsZero() {
+				ok = res[i].IsZero()
+			} else {
+				var p Element
+				p.Mul(&res[i], &a[i])
+				one := One()
+				ok = p.Equal(&one)
+			}
+		}
+		vAssert(ok, "BatchInvert: res[i]*a[i] = 1 for non-zero inputs and 0 for zero inputs")
+	}
+	vReach("end")
+}
